@@ -158,7 +158,18 @@ func scMarkAttr(items []scItem) {
 	}
 }
 
-func scFileName(i int) string { return fmt.Sprintf("f%d.lua", i+1) }
+// scModNames: module names of the generated files (default f1, f2, ...). A family may name them like the program's
+// variables (a, b) so that a global and a required module share a name.
+var scModNames []string
+
+func scModName(i int) string {
+	if i < len(scModNames) {
+		return scModNames[i]
+	}
+	return fmt.Sprintf("f%d", i+1)
+}
+
+func scFileName(i int) string { return scModName(i) + ".lua" }
 
 // scRenderProg renders items one statement per line, ASCII only, no indentation.
 func scRenderProg(items []scItem) *scRender { return scRenderMode(items, 0) }
@@ -254,7 +265,7 @@ func scRenderMode(items []scItem, mode int) *scRender {
 		case "ret":
 			add(i, "return ", use("u", it.U, it.B, it.Alt))
 		case "require":
-			add(i, "local ", decl("n", it.N, it.ID, "local"), fmt.Sprintf(" = require(\"f%d\")", it.RFile))
+			add(i, "local ", decl("n", it.N, it.ID, "local"), fmt.Sprintf(" = require(%q)", scModName(it.RFile-1)))
 		case "assign":
 			var tgt occ
 			if it.Nb != 0 {
